@@ -156,7 +156,7 @@ def _propagate(lo, hi, cons, watch, queue):
     return True
 
 
-def solve_all(lp, limit=2000000):
+def solve_all(lp, limit=2000000, aux_order='lo'):
     """Returns (vs, nproj, results, sign): results = [(pair vector, best objective
     (in the 'maximise sign*obj' orientation), witness values)] for every pair
     vector that has a completion."""
@@ -186,7 +186,12 @@ def solve_all(lp, limit=2000000):
             best[1] = list(lo)
             return
         coef = otd.get(k, 0)
-        vals = range(hi[k], lo[k] - 1, -1) if coef > 0 else range(lo[k], hi[k] + 1)
+        # variables outside the objective are free within the optimum: 'lo' returns
+        # the tightest values, 'hi' the slackest ones a solver is entitled to leave
+        if coef > 0 or (coef == 0 and aux_order == 'hi'):
+            vals = range(hi[k], lo[k] - 1, -1)
+        else:
+            vals = range(lo[k], hi[k] + 1)
         for val in vals:
             l2 = list(lo)
             h2 = list(hi)
@@ -217,10 +222,11 @@ def solve_all(lp, limit=2000000):
 
 
 class Backend(object):
-    def __init__(self, mode='eb', choices=(), keep_sets=True, hook=None, salt=0):
+    def __init__(self, mode='eb', choices=(), keep_sets=True, hook=None, salt=0, aux_order=None):
         self.mode = mode
         self.choices = list(choices)
         self.salt = int(salt or 0)
+        self.aux_order = aux_order or ('hi' if self.salt % 2 else 'lo')
         self.keep_sets = keep_sets
         self.records = []
         self.last = None
@@ -274,7 +280,7 @@ class Backend(object):
             from pulp import PulpSolverError
             raise PulpSolverError('Pulp: Error while executing (duplicated variable names %r)'
                                   % sorted(n for n in set(names) if names.count(n) > 1))
-        vs, nproj, res, sign = solve_all(lp)
+        vs, nproj, res, sign = solve_all(lp, aux_order=self.aux_order)
         self.last = (vs, res)
         rec.pairs = [_pair(v.name) for v in vs[:nproj]]
         rec.nF = len(res)
